@@ -15,6 +15,16 @@ def _err(out):
     return int(out[1]) if len(out) > 1 and out[0] == "E" else 0
 
 
+def _errs(op, out):
+    """error codes of the update(s) of one trace line (a UC line carries two: E ... V ...)"""
+    if not op or op[0] not in ("H", "U", "UB", "UC"):
+        return []
+    codes = [_err(out)]
+    if op[0] == "UC" and "V" in out:
+        codes.append(int(out[out.index("V") + 1]))
+    return codes
+
+
 def gme_nontrivial_c15(lines):
     """at least two accepted configurations (construction + one accepted update), i.e. the pool
     set was really reconfigured, or a connectivity change / RPC was observed"""
@@ -24,8 +34,7 @@ def gme_nontrivial_c15(lines):
         op, out = _fields(l)
         if not op:
             continue
-        if op[0] in ("H", "U", "UB") and _err(out) == 0:
-            ok_updates += 1
+        ok_updates += sum(1 for c in _errs(op, out) if c == 0)
         if op[0] in ("P", "X"):
             extra = True
     return ok_updates >= 2 or (ok_updates >= 1 and extra)
@@ -37,7 +46,7 @@ def gme_nontrivial_c16(lines):
         op, out = _fields(l)
         if not op:
             continue
-        if op[0] in ("H", "U", "UB") and _err(out) != 0:
+        if any(c != 0 for c in _errs(op, out)):
             return True
         if op[0] == "C":
             return True
@@ -60,6 +69,10 @@ GEN = ("histories = corpus (witnesses of G2, G3, G4 + ordinary reconfigurations 
        "READY again, then the dial is released; the UB line is recorded when all monitors are back in WaitForStateChange and "
        "every MultiEndpoint shows the pool's final readiness (bounded by 3 s; given up 0.5 s after every monitor is idle with "
        "the report still missing), followed by a P line; "
+       "VERIF_CONC dedicated scenarios (and ~8% of the operations of every history) are PAIRS of updates (UC): the first "
+       "DialFunc call of update 1 blocks; update 2 (replacing / shrinking / reverting / renaming / invalid options) is started "
+       "in a second goroutine and is parked on gme.mu inside UpdateMultiEndpoints (goroutine stacks) or has returned when the "
+       "dial is released; the pair must take effect as update 1 then update 2 (dial logs attributed per goroutine); "
        "after every event: routes of pickConn for the contexts (none, '', me1..me4, me9), tables of every MultiEndpoint, "
        "pool table, dial log, open connections, census of monitor goroutines; RecoveryTimeout = SwitchingDelay = 0; "
        "distinct by hash of the operation list; ")
@@ -78,14 +91,14 @@ class GMEEngine(engines.HistEngine):
     props = {
         "C15": dict(monitor="c15",
                     rel={"route", "pools", "dial", "mes", "default", "call", "open", "census", "badop"},
-                    quick=dict(VERIF_N="700", VERIF_MAXOPS="10", VERIF_LIVE="20", VERIF_FLAP="60"),
-                    thorough=dict(VERIF_N="30000", VERIF_MAXOPS="16", VERIF_LIVE="25", VERIF_FLAP="1500"),
+                    quick=dict(VERIF_N="700", VERIF_MAXOPS="10", VERIF_LIVE="20", VERIF_FLAP="60", VERIF_CONC="60"),
+                    thorough=dict(VERIF_N="30000", VERIF_MAXOPS="16", VERIF_LIVE="25", VERIF_FLAP="1500", VERIF_CONC="1500"),
                     nontrivial=gme_nontrivial_c15,
                     rule=GEN + "non-trivial = at least two accepted configurations, or one plus a connectivity change / RPC"),
         "C16": dict(monitor="c16",
                     rel={"error", "route", "pools", "dial", "mes", "default", "open", "census", "badop"},
-                    quick=dict(VERIF_N="700", VERIF_MAXOPS="10", VERIF_LIVE="20", VERIF_FLAP="60"),
-                    thorough=dict(VERIF_N="30000", VERIF_MAXOPS="16", VERIF_LIVE="25", VERIF_FLAP="1500"),
+                    quick=dict(VERIF_N="700", VERIF_MAXOPS="10", VERIF_LIVE="20", VERIF_FLAP="60", VERIF_CONC="60"),
+                    thorough=dict(VERIF_N="30000", VERIF_MAXOPS="16", VERIF_LIVE="25", VERIF_FLAP="1500", VERIF_CONC="1500"),
                     nontrivial=gme_nontrivial_c16,
                     rule=GEN + "non-trivial = the history contains a rejected construction/update or a Close"),
     }
@@ -128,6 +141,11 @@ _COMMON = [
     "end of the update, stale outage report, recovery report; with zero delays Current() is again the top available endpoint); "
     "the harness records the UB line only when all monitors are idle again, so the transient states are not observed and a "
     "LOST recovery report shows as a failure of the C15 clauses update_status_synced (UB line) and follows_connectivity (P line)",
+    "a UC line (two overlapping updates) is two model events GUpdate o1; GUpdate o2 (update 2 is ordered after update 1 "
+    "because it arrived while update 1 held gme.mu); the observation BETWEEN the two does not exist in the implementation "
+    "and is supplied by the driver from the extracted model (gobs_norm (gobserve (gstep ..))), so the first event of the "
+    "pair only checks update 1's error code and dial log, and the second event checks the final observation against the "
+    "sequential outcome (monitors and acceptor)",
     "pickConn reads the maps without the lock (property C10): RPCs and route probes are never issued concurrently with "
     "updates; after Close only the pool table, the open connections and the census are compared (cancelled monitors may "
     "or may not deliver a last notification) and the monitors stop checking",
